@@ -26,7 +26,7 @@ CHECKS = {
  "C10": ("exploration", "DESIGN.md 4.5",
   "Seeded histories in one interpreter (untraced / traced runs, fresh and reused Pipeline objects, other configs in between, clock and uuid streams advancing); outcome equality traced vs untraced and trace equality modulo the documented volatile fields only.",
   "Volatile-field list is taken literally from the statement; leaf and executor are harness code.",
-  "deterministic simulation: seeded operation histories with clock/uuid perturbation, differential outcome + normalised-trace oracle"),
+  "deterministic simulation: seeded operation histories with clock/uuid/global-PRNG perturbation (in-process, CLI, fresh interpreters; two caller threads under the seeded scheduler for cold-start runs), differential outcome + normalised-trace oracle"),
  "C13": ("fault_enumeration", "DESIGN.md 4.6",
   "Real runtime as producer (single runs and CLI run-space launches, failing and not, file/dir); crash enumerated after every emitted line; each prefix delivered to the real TraceAggregator in emission order, seeded permutations, k-way per-file interleavings, with mid-way and double finalize; verdicts compared across orders and against a reference computed over the record set.",
   "Trusts the 40-line reference verdict and the file seam's emission order. Traces are sampled; crash points per trace are exhaustive; delivery orders are sampled.",
@@ -38,11 +38,11 @@ CHECKS = {
  "C14": ("exploration", "DESIGN.md 4.7",
   "Real InMemorySemantivaTransport driven by 2-3 publisher and 1-2 subscriber tasks under a cooperative scheduler that owns every thread switch (line-granular pre-emption inside transport code); seeded PCT/random-walk/bursty schedules; exactly-once, per-channel order and pattern-match oracles over the recorded history.",
   "Pre-emption at line boundaries of in_memory.py/base.py (incl. the defaultdict factory lambda); CPython switch points inside a single C call are not modelled.",
-  "deterministic simulation: baton-passing scheduler over real threads with sys.settrace pre-emption points, seeded schedule search, history oracle"),
+  "deterministic simulation: baton-passing scheduler over real threads with sys.settrace pre-emption points, seeded schedule search (plus a seeded asyncio cancellation phase), history oracle"),
  "C15": ("exploration", "DESIGN.md 4.8",
   "Real QueueSemantivaOrchestrator.run_forever, 1-4 real worker_loop tasks and a client on a shared real transport under the same scheduler with virtual time; batches of distinct pipelines incl. failing and slow jobs; every Future must complete exactly once with its own job's result (reference = direct Pipeline run) within a bounded virtual time after the last enqueue.",
   "Liveness bound: 10 s + 2 s x jobs of virtual time after the last enqueue once faults stop; threading/queue/time names of the job-queue modules are rebound to simulator shims.",
-  "deterministic simulation: cooperative thread scheduler + virtual time over the real master/worker loops, failing/slow job injection, bounded-liveness and exactly-once oracles"),
+  "deterministic simulation: cooperative thread scheduler + virtual time over the real master/worker loops, failing/slow/unloadable job, worker-churn, cancelled-Future and bounded-pool-executor injection, bounded-liveness and exactly-once oracles"),
  "C17": ("exploration", "DESIGN.md 4.9",
   "In-process `semantiva run` on configurations valid or invalid by construction in one documented way x CLI flags; leaf log, executor log and sandbox file tree are the observers: nothing may execute or be written when pre-flight must reject or a no-execute flag is given; exit code classes as documented; runs after a failed run never start.",
   "Exit-code classes only where docs/source/cli.rst is unambiguous; otherwise merely non-zero.",
@@ -54,7 +54,7 @@ CHECKS = {
  "C18": ("exploration", "DESIGN.md 4.10",
   "Long histories (N=450 after warm-up) in one forked interpreter in the four repeat modes; registry sizes and gc population sampled at 50/150/450; growth attributed to named process-level roots by reachability.",
   "gc object increments are exactly reproducible in a forked child (calibrated by a no-op control history); slope threshold 0.5 object/run.",
-  "deterministic simulation: long seeded run histories in four repeat modes with gc/registry growth oracle and root attribution"),
+  "deterministic simulation: long seeded run histories in five repeat modes (queue mode under the thread engine) with registry / module-container / gc growth oracle and root attribution"),
 }
 
 
